@@ -164,6 +164,9 @@ func (r *Runner) dimOf(n string) int {
 func (r *Runner) vec(tok string) []float32 { return r.vecFor("", tok) }
 
 func (r *Runner) vecFor(n, tok string) []float32 {
+	if tok == "vnone" {
+		return nil // an entity without a vector: the engine stores a zero vector of the index's dimension
+	}
 	d := r.dimOf(n)
 	if tok == "vbad" {
 		d++ // wrong dimension
@@ -204,6 +207,15 @@ func normalize(v []float32) []float32 {
 
 // vecToken maps a vector read back from the engine to the token whose stored form it is.
 func (r *Runner) vecToken(got []float32, metric, prec string) string {
+	if len(got) > 0 {
+		zero := true
+		for _, x := range got {
+			zero = zero && x == 0
+		}
+		if zero {
+			return "v0"
+		}
+	}
 	best, bestD := "?", math.Inf(1)
 	for _, tok := range []string{"v1", "v2", "v3"} {
 		want := r.vec(tok)
